@@ -676,9 +676,12 @@ def gen_keyed_case(rnd, p_bad=0.0, p_odd=0.0):
         no = rnd.choice([1, 1, 2, 2, 3, 4])
         enc += enc_str(caps[g]) + [raw, no]
         for _ in range(no):
-            name = rand_name(rnd, used)[:rnd.choice([3, 8, 20, 60])]
+            fresh = rand_name(rnd, used)
+            name = fresh[:rnd.choice([3, 8, 20, 60])]
             while name in used and len(name) < 60:
                 name += rnd.choice(NAME_CH[:26])
+            while name != fresh and name in used:           # grown to 60 characters onto an earlier name (false alarm of the fifth thorough run,
+                name = name[:59] + rnd.choice(NAME_CH[:26]) # DESIGN.md section 6): keep the length, change the last character
             used.add(name)
             flag = 1 if rnd.random() < 0.3 else 0
             if rnd.random() < 0.12:
